@@ -157,7 +157,22 @@ def run(ctx):
                     for k in rng.sample(outs, min(2, len(outs))):
                         w.setdefault(k, rng.randrange(len(st.accessors[k].items)))
                     wirings.append(w)
-            wirings.insert(0, {})          # nothing wired: a platform whose facade cannot be built at all (C11/D6) is skipped
+            # everything wired: every output carries some accessory (many devices of several classes at once)
+            for _ in range(6 if ctx.quick else 40):
+                w = {}
+                for k in outs:
+                    labs = [i for i, lab in enumerate(st.accessors[k].items or []) if lab not in ("NA", "")]
+                    if labs:
+                        w[k] = rng.choice(labs)
+                wirings.append(w)
+            # nothing wired first, then one single accessory: a table pair for which BOTH fail cannot be built at
+            # all (C11 / D6) and is skipped; a failure of the empty wiring alone is a verdict
+            single = next((w for w in wirings if len(w) == 1 and any(
+                (st.accessors[k].items[i] or "").startswith(dk) for k, i in w.items() for dk in C.DEVICES)), None)
+            wirings.insert(0, {})
+            if single is not None:
+                wirings.insert(1, single)
+            empty_failed = None
             pair_ok = True
             for wi, w in enumerate(wirings):
                 if not pair_ok:
@@ -176,6 +191,9 @@ def run(ctx):
                         w_ = (w_ & ~(a.bitmask << a.bitpos)) | (idx << a.bitpos)
                         _set_field(st, a, w_)
                 labels = [st.accessors[k].value for k in outs]
+                if wi == 2 and empty_failed is not None and pair_ok:
+                    # the pair can be built with an accessory wired, but not with nothing wired
+                    broken.append((f"{c['name']}+{l['name']}", {}, empty_failed[0], empty_failed[1]))
                 for which in ("async", "sync"):
                     try:
                         with contextlib.redirect_stdout(io.StringIO()):
@@ -183,6 +201,8 @@ def run(ctx):
                         meta.append((f"{c['name']}+{l['name']}", {k: st.accessors[k].value for k in w}))
                     except Exception as e:  # noqa
                         if wi == 0:
+                            empty_failed = (which, type(e).__name__)
+                        elif wi == 1 and empty_failed is not None:
                             unbuildable.add((c["platform"], type(e).__name__))
                             pair_ok = False
                         else:
